@@ -16,6 +16,19 @@ namespace GoSecs.Sup
 @[simp] theorem emit_delivered (c : Cfg) (sc) : (emit c sc).delivered = c.delivered := by unfold emit; split <;> rfl
 @[simp] theorem emit_reactions (c : Cfg) (sc) : (emit c sc).reactions = c.reactions := by unfold emit; split <;> rfl
 
+@[simp] theorem emit_gen (c : Cfg) (sc) : (emit c sc).gen = c.gen := by unfold emit; split <;> rfl
+@[simp] theorem emit_dwell (c : Cfg) (sc) : (emit c sc).dwell = c.dwell := by unfold emit; split <;> rfl
+@[simp] theorem emit_stopped (c : Cfg) (sc) : (emit c sc).stopped = c.stopped := by unfold emit; split <;> rfl
+@[simp] theorem fire_gen (c : Cfg) (n) : (fire c n).gen = c.gen := by simp [fire]
+@[simp] theorem fire_dwell (c : Cfg) (n) : (fire c n).dwell = c.dwell := by simp [fire]
+@[simp] theorem fire_stopped (c : Cfg) (n) : (fire c n).stopped = c.stopped := by simp [fire]
+@[simp] theorem reactTo_gen (c : Cfg) (n) : (reactTo c n).gen = c.gen := by unfold reactTo; split <;> simp
+@[simp] theorem reactTo_dwell (c : Cfg) (n) : (reactTo c n).dwell = c.dwell := by unfold reactTo; split <;> simp
+@[simp] theorem reactTo_stopped (c : Cfg) (n) : (reactTo c n).stopped = c.stopped := by unfold reactTo; split <;> simp
+@[simp] theorem latch_gen (c : Cfg) (e) : (latch c e).gen = c.gen := by unfold latch; split <;> rfl
+@[simp] theorem latch_dwell (c : Cfg) (e) : (latch c e).dwell = c.dwell := by unfold latch; split <;> rfl
+@[simp] theorem latch_stopped (c : Cfg) (e) : (latch c e).stopped = c.stopped := by unfold latch; split <;> rfl
+
 @[simp] theorem fire_st (c : Cfg) (n) : (fire c n).st = c.st := by simp [fire]
 @[simp] theorem fire_pc (c : Cfg) (n) : (fire c n).pc = c.pc := by simp [fire]
 @[simp] theorem fire_queue (c : Cfg) (n) : (fire c n).queue = c.queue := by simp [fire]
@@ -91,7 +104,7 @@ theorem winInv_step (c : Cfg) (a : Act) (h : WinInv c) : WinInv (step c a) := by
     · exact h
   | injStart => simp only [stepLive]; split <;> (unfold WinInv at *; simpa using h)
   | injRecv => simp only [stepLive]; split <;> (unfold WinInv at *; simpa using h)
-  | inject ev => simp only [stepLive]; split <;> (unfold WinInv at *; simpa using h)
+  | inject k => simp only [stepLive]; unfold WinInv at *; simpa using h
   | runLoad =>
     simp only [stepLive]
     split
@@ -105,7 +118,9 @@ theorem winInv_step (c : Cfg) (a : Act) (h : WinInv c) : WinInv (step c a) := by
     simp only [stepLive]
     split
     · exact h
-    · unfold WinInv; rw [commit_pc]; trivial
+    · split
+      · unfold WinInv; trivial
+      · unfold WinInv; rw [commit_pc]; trivial
   | deliver => simp only [stepLive]; split <;> (unfold WinInv at *; simpa using h)
   | closeReturn => simp only [stepLive]; split <;> (unfold WinInv at *; simp_all)
 
@@ -138,7 +153,7 @@ theorem legal_edges_step (c : Cfg) (a : Act) (h : WinInv c) :
   | casSelectLost => simp only [stepLive]; split <;> simp_all [Edge]
   | injStart => simp only [stepLive]; split <;> simp
   | injRecv => simp only [stepLive]; split <;> simp
-  | inject ev => simp only [stepLive]; split <;> simp
+  | inject k => simp only [stepLive]; simp
   | runLoad => simp only [stepLive]; (repeat' split) <;> simp
   | deliver => simp only [stepLive]; split <;> simp
   | runCommit =>
@@ -146,14 +161,16 @@ theorem legal_edges_step (c : Cfg) (a : Act) (h : WinInv c) :
     split
     · simp
     · rename_i ev cur hp
-      rw [commit_st]
-      unfold WinInv at h; rw [hp] at h
-      exact store_edge ev cur c.st _ h
+      split
+      · simp
+      · rw [commit_st]
+        unfold WinInv at h; rw [hp] at h
+        exact store_edge ev cur c.st _ h
 
 /-- T7 can never take the session out of Selected: whatever value the run goroutine loaded, if the
     atomic reads Selected at the store, the T7 store does not happen. -/
-theorem t7_commit_keeps_selected (c : Cfg) (cur : St) (h : c.st = .S) :
-    (commit c .t7 cur).st = .S := by
+theorem t7_commit_keeps_selected (c : Cfg) (d : Nat) (cur : St) (h : c.st = .S) :
+    (commit c (.t7 d) cur).st = .S := by
   rw [commit_st]
   cases cur <;> cases deselPending c <;> simp [outcome, transition, h]
 
@@ -209,7 +226,7 @@ theorem closedInv_step (c : Cfg) (a : Act) (h : ClosedInv c) : ClosedInv (step c
   | casSelectLost => simp only [stepLive]; split <;> simp_all
   | injStart => simp only [stepLive]; split <;> simp_all
   | injRecv => simp only [stepLive]; split <;> simp_all
-  | inject ev => simp only [stepLive]; split <;> simp_all
+  | inject k => simp only [stepLive]; simp_all
   | deliver => simp only [stepLive]; split <;> simp_all
   | closeReturn => simp only [stepLive]; split <;> simp_all
   | runLoad =>
@@ -224,7 +241,9 @@ theorem closedInv_step (c : Cfg) (a : Act) (h : ClosedInv c) : ClosedInv (step c
     simp only [stepLive]
     split
     · exact h
-    · intro _; exact commit_pc _ _ _
+    · split
+      · intro _; rfl
+      · intro _; exact commit_pc _ _ _
 
 theorem closedInv_run (as : List Act) : ClosedInv (run init as) := by
   suffices ∀ c, ClosedInv c → ClosedInv (run c as) from this init (by intro h; cases h)
@@ -254,6 +273,75 @@ theorem covered_of_eq (c c' : Cfg) (hs : c'.st = c.st) (hq : ∀ e, InFlight c e
     (h : Covered c) : Covered c' := by
   obtain ⟨e, he, ht⟩ := h
   exact ⟨e, hq e he, by rw [hs]; exact ht⟩
+
+/-- A stale event announces no state (only disconnect / T7 events can be stale). -/
+theorem stale_tgt (c : Cfg) (ev : Ev) (h : stale c ev = true) : tgt ev = none := by
+  cases ev <;> simp_all [stale, tgt]
+
+theorem agreeInv_commit (c : Cfg) (ev : Ev) (cur : St) (hp : c.pc = .loaded ev cur) (h : AgreeInv c) :
+    AgreeInv (commit c ev cur) := by
+  intro hc
+  rw [commit_closed] at hc
+  have hc0 : c.closed = false := by
+    cases hcc : c.closed <;> simp_all
+  have h' := h hc0
+  simp only [hp] at h'
+  rw [commit_pc]
+  show (commit c ev cur).st = (commit c ev cur).lastReacted ∨ Covered (commit c ev cur)
+  have hcovmono : Covered c → (commit c ev cur).st = c.st → Covered (commit c ev cur) := by
+    intro hcov hst
+    refine covered_of_eq c _ hst ?_ hcov
+    intro x hx
+    unfold InFlight at *
+    rw [commit_queue, commit_pendStart, commit_pendRecv]; exact hx
+  rw [commit_st, commit_lastReacted]
+  cases ho : outcome ev cur c.st (deselPending c)
+  · -- noop
+    simp only [reduceCtorEq, if_false]
+    rcases h' with ⟨hcur, hl | ht⟩ | hcov
+    · exact Or.inl hl
+    · have := tgt_legal ev c.st ht
+      rw [← hcur] at ho
+      simp [outcome, this] at ho
+    · exact Or.inr (hcovmono hcov (by rw [commit_st, ho]; simp))
+  · -- react
+    simp only [reduceCtorEq, if_false]
+    have hnext : (transition cur ev).1 = cur ∨
+        (ev = .selAcc ∧ cur = .NS ∧ deselPending c = true) := by
+      unfold outcome at ho
+      (repeat' split at ho) <;> first
+        | (left; simp_all; done)
+        | (right; rename_i h1 h2 h3 h4; obtain ⟨rfl, hd⟩ := h4
+           refine ⟨rfl, ?_, hd⟩
+           cases cur <;> simp_all [transition])
+        | simp_all
+    rcases hnext with hnext | ⟨rfl, rfl, hd⟩
+    · rcases h' with ⟨hcur, _⟩ | hcov
+      · exact Or.inl (by rw [hnext, hcur])
+      · exact Or.inr (hcovmono hcov (by rw [commit_st, ho]; simp))
+    · -- superseded Select: state left as the Deselect commit published it; its event covers it
+      have hst : (commit c .selAcc .NS).st = c.st := by rw [commit_st, ho]; simp
+      have hcov : c.st = .NS → Covered c := by
+        intro hs
+        refine ⟨.selLost, ?_, by rw [hs]; rfl⟩
+        unfold deselPending at hd
+        simp only [Bool.or_eq_true, decide_eq_true_eq, beq_iff_eq] at hd
+        rcases hd with hd | hd
+        · exact Or.inl hd
+        · exact Or.inr (Or.inr hd)
+      rcases h' with ⟨hcur, _⟩ | hc
+      · exact Or.inr (hcovmono (hcov hcur) hst)
+      · exact Or.inr (hcovmono hc hst)
+  · -- abandon
+    simp only [reduceCtorEq, if_false]
+    have hne : c.st ≠ cur := by
+      unfold outcome at ho
+      (repeat' split at ho) <;> simp_all
+    rcases h' with ⟨hcur, _⟩ | hcov
+    · exact absurd hcur hne
+    · exact Or.inr (hcovmono hcov (by rw [commit_st, ho]; simp))
+  · -- store
+    simp
 
 theorem agreeInv_step (c : Cfg) (a : Act) (h : AgreeInv c) : AgreeInv (step c a) := by
   unfold step; split
@@ -313,21 +401,19 @@ theorem agreeInv_step (c : Cfg) (a : Act) (h : AgreeInv c) : AgreeInv (step c a)
       · exact h'.imp id (covered_of_eq c _ rfl mono)
       · exact h'.imp id (covered_of_eq c _ rfl mono)
     · exact h
-  | inject ev =>
+  | inject k =>
     simp only [stepLive]
-    split
-    · intro hc
-      have h' := h hc
-      have mono : ∀ x, InFlight c x → InFlight { c with queue := c.queue ++ [ev] } x := by
-        intro x hx
-        rcases hx with hx | hx | hx
-        · exact Or.inl (by simp [hx])
-        · exact Or.inr (Or.inl hx)
-        · exact Or.inr (Or.inr hx)
-      cases hp : c.pc <;> simp only [hp] at h' ⊢
-      · exact h'.imp id (covered_of_eq c _ rfl mono)
-      · exact h'.imp id (covered_of_eq c _ rfl mono)
-    · exact h
+    intro hc
+    have h' := h hc
+    have mono : ∀ x, InFlight c x → InFlight { c with queue := c.queue ++ [k.toEv c] } x := by
+      intro x hx
+      rcases hx with hx | hx | hx
+      · exact Or.inl (by simp [hx])
+      · exact Or.inr (Or.inl hx)
+      · exact Or.inr (Or.inr hx)
+    cases hp : c.pc <;> simp only [hp] at h' ⊢
+    · exact h'.imp id (covered_of_eq c _ rfl mono)
+    · exact h'.imp id (covered_of_eq c _ rfl mono)
   | closeReturn =>
     simp only [stepLive]
     split
@@ -385,68 +471,17 @@ theorem agreeInv_step (c : Cfg) (a : Act) (h : AgreeInv c) : AgreeInv (step c a)
     split
     · exact h
     · rename_i ev cur hp
-      intro hc
-      rw [commit_closed] at hc
-      have hc0 : c.closed = false := by
-        cases hcc : c.closed <;> simp_all
-      have h' := h hc0
-      simp only [hp] at h'
-      rw [commit_pc]
-      show (commit c ev cur).st = (commit c ev cur).lastReacted ∨ Covered (commit c ev cur)
-      have hcovmono : Covered c → (commit c ev cur).st = c.st → Covered (commit c ev cur) := by
-        intro hcov hst
-        refine covered_of_eq c _ hst ?_ hcov
-        intro x hx
-        unfold InFlight at *
-        rw [commit_queue, commit_pendStart, commit_pendRecv]; exact hx
-      rw [commit_st, commit_lastReacted]
-      cases ho : outcome ev cur c.st (deselPending c)
-      · -- noop
-        simp only [reduceCtorEq, if_false]
-        rcases h' with ⟨hcur, hl | ht⟩ | hcov
+      split
+      · rename_i hstale
+        intro hc
+        have h' := h hc
+        simp only [hp] at h'
+        show c.st = c.lastReacted ∨ Covered { c with pc := .idle }
+        rcases h' with ⟨_, hl | ht⟩ | hcov
         · exact Or.inl hl
-        · have := tgt_legal ev c.st ht
-          rw [← hcur] at ho
-          simp [outcome, this] at ho
-        · exact Or.inr (hcovmono hcov (by rw [commit_st, ho]; simp))
-      · -- react
-        simp only [reduceCtorEq, if_false]
-        have hnext : (transition cur ev).1 = cur ∨
-            (ev = .selAcc ∧ cur = .NS ∧ deselPending c = true) := by
-          unfold outcome at ho
-          (repeat' split at ho) <;> first
-            | (left; simp_all; done)
-            | (right; rename_i h1 h2 h3 h4; obtain ⟨rfl, hd⟩ := h4
-               refine ⟨rfl, ?_, hd⟩
-               cases cur <;> simp_all [transition])
-            | simp_all
-        rcases hnext with hnext | ⟨rfl, rfl, hd⟩
-        · rcases h' with ⟨hcur, _⟩ | hcov
-          · exact Or.inl (by rw [hnext, hcur])
-          · exact Or.inr (hcovmono hcov (by rw [commit_st, ho]; simp))
-        · -- superseded Select: state left as the Deselect commit published it; its event covers it
-          have hst : (commit c .selAcc .NS).st = c.st := by rw [commit_st, ho]; simp
-          have hcov : c.st = .NS → Covered c := by
-            intro hs
-            refine ⟨.selLost, ?_, by rw [hs]; rfl⟩
-            unfold deselPending at hd
-            simp only [Bool.or_eq_true, decide_eq_true_eq, beq_iff_eq] at hd
-            rcases hd with hd | hd
-            · exact Or.inl hd
-            · exact Or.inr (Or.inr hd)
-          rcases h' with ⟨hcur, _⟩ | hc
-          · exact Or.inr (hcovmono (hcov hcur) hst)
-          · exact Or.inr (hcovmono hc hst)
-      · -- abandon
-        simp only [reduceCtorEq, if_false]
-        have hne : c.st ≠ cur := by
-          unfold outcome at ho
-          (repeat' split at ho) <;> simp_all
-        rcases h' with ⟨hcur, _⟩ | hcov
-        · exact absurd hcur hne
-        · exact Or.inr (hcovmono hcov (by rw [commit_st, ho]; simp))
-      · -- store
-        simp
+        · rw [stale_tgt c ev hstale] at ht; cases ht
+        · exact Or.inr (covered_of_eq c _ rfl (fun x hx => hx) hcov)
+      · exact agreeInv_commit c ev cur hp h
 
 theorem agreeInv_run (as : List Act) : AgreeInv (run init as) := by
   suffices ∀ c, AgreeInv c → AgreeInv (run c as) from this init agreeInv_init
@@ -509,7 +544,7 @@ theorem chainInv_step (c : Cfg) (a : Act) (h : ChainInv c) : ChainInv (step c a)
   | casSelectLost => simp only [stepLive]; split <;> exact h
   | injStart => simp only [stepLive]; split <;> exact h
   | injRecv => simp only [stepLive]; split <;> exact h
-  | inject ev => simp only [stepLive]; split <;> exact h
+  | inject k => simp only [stepLive]; exact h
   | deliver => simp only [stepLive]; split <;> exact h
   | closeReturn => simp only [stepLive]; split <;> exact h
   | runLoad => simp only [stepLive]; (repeat' split) <;> exact h
@@ -518,14 +553,16 @@ theorem chainInv_step (c : Cfg) (a : Act) (h : ChainInv c) : ChainInv (step c a)
     split
     · exact h
     · rename_i ev cur hp
-      unfold commit
-      have hl : ∀ x : Cfg, ChainInv x → ChainInv (latch x ev) := by
-        intro x hx; unfold ChainInv at *; simpa using hx
-      cases ho : outcome ev cur c.st (deselPending c)
-      · exact hl _ h
-      · exact hl _ (chainInv_reactTo _ _ h)
+      split
       · exact h
-      · exact hl _ (chainInv_reactTo _ _ h)
+      · unfold commit
+        have hl : ∀ x : Cfg, ChainInv x → ChainInv (latch x ev) := by
+          intro x hx; unfold ChainInv at *; simpa using hx
+        cases ho : outcome ev cur c.st (deselPending c)
+        · exact hl _ h
+        · exact hl _ (chainInv_reactTo _ _ h)
+        · exact h
+        · exact hl _ (chainInv_reactTo _ _ h)
 
 theorem chainInv_run (as : List Act) : ChainInv (run init as) := by
   suffices ∀ c, ChainInv c → ChainInv (run c as) from this init ⟨trivial, rfl⟩
@@ -585,7 +622,7 @@ theorem bufInv_step (c : Cfg) (a : Act) (h : BufInv c) : BufInv (step c a) := by
   | casSelectLost => simp only [stepLive]; split <;> first | exact h | exact bufInv_congr c _ h rfl rfl rfl rfl
   | injStart => simp only [stepLive]; split <;> first | exact h | exact bufInv_congr c _ h rfl rfl rfl rfl
   | injRecv => simp only [stepLive]; split <;> first | exact h | exact bufInv_congr c _ h rfl rfl rfl rfl
-  | inject ev => simp only [stepLive]; split <;> first | exact h | exact bufInv_congr c _ h rfl rfl rfl rfl
+  | inject k => simp only [stepLive]; exact bufInv_congr c _ h rfl rfl rfl rfl
   | closeReturn => simp only [stepLive]; split <;> first | exact h | exact bufInv_congr c _ h rfl rfl rfl rfl
   | runLoad => simp only [stepLive]; (repeat' split) <;> first | exact h | exact bufInv_congr c _ h rfl rfl rfl rfl
   | deliver =>
@@ -607,14 +644,16 @@ theorem bufInv_step (c : Cfg) (a : Act) (h : BufInv c) : BufInv (step c a) := by
     split
     · exact h
     · rename_i ev cur hp
-      unfold commit
-      have hl : ∀ x : Cfg, BufInv x → BufInv (latch x ev) := by
-        intro x hx; exact bufInv_congr x _ hx (by simp) (by simp) (by simp) (by simp)
-      cases ho : outcome ev cur c.st (deselPending c)
-      · exact hl _ (bufInv_congr c _ h rfl rfl rfl rfl)
-      · exact hl _ (bufInv_reactTo _ _ (bufInv_congr c _ h rfl rfl rfl rfl))
+      split
       · exact bufInv_congr c _ h rfl rfl rfl rfl
-      · exact hl _ (bufInv_reactTo _ _ (bufInv_congr c _ h rfl rfl rfl rfl))
+      · unfold commit
+        have hl : ∀ x : Cfg, BufInv x → BufInv (latch x ev) := by
+          intro x hx; exact bufInv_congr x _ hx (by simp) (by simp) (by simp) (by simp)
+        cases ho : outcome ev cur c.st (deselPending c)
+        · exact hl _ (bufInv_congr c _ h rfl rfl rfl rfl)
+        · exact hl _ (bufInv_reactTo _ _ (bufInv_congr c _ h rfl rfl rfl rfl))
+        · exact bufInv_congr c _ h rfl rfl rfl rfl
+        · exact hl _ (bufInv_reactTo _ _ (bufInv_congr c _ h rfl rfl rfl rfl))
 
 theorem bufInv_run (as : List Act) : BufInv (run init as) := by
   suffices ∀ c, BufInv c → BufInv (run c as) from this init
